@@ -284,8 +284,8 @@ def nuts_chain_run(ctx, nc, nd):
         return
     ev = ctx.evaluate(b, no_inline=('nuts::NUTSChain::step', ctx.helper_key('nuts.fre', 'nuts::find_reasonable_epsilon')))
     sp = b['sp']
-    loops = [ls for ls in ev.vf.loops if ls.kind == 'for' and not ls.ctx and ls.owner == 'nuts::NUTSChain::run']
     steps = ev.events(lambda e: e.key == 'nuts::NUTSChain::step')
+    loops = [ls for ls in ev.vf.loops if ls.kind == 'for' and not ls.ctx and any(e in ls.events for e in steps)]      # the loop that steps the chain (wherever it is written)
     if len(loops) != 1 or len(steps) != 1:
         for o in ('row0', 'count', 'step_once', 'guard_row_value'):
             ctx.unknown('C09.nuts_run.' + o, A, o, why='expected one run loop with one step (found %d loops, %d step sites)' % (len(loops), len(steps)), sp=sp)
